@@ -222,7 +222,7 @@ class TrackerMachine(HistorySpec):
                     eq(devs, "add_tm.completed_flag", bool(res.completed), flag, f"report {a}")
                     eq(devs, "add_tm.result_status", obs_status(res.status), s.model[k], f"report {a}")
                     for old_res, old_flag in s.answers[-4:]:
-                        if old_res is not res or bool(res.completed) != flag:
+                        if True:  # (also when the library handed out the same object again: what it said then must still be what it says)
                             eq(devs, "add_tm.earlier_answer_completed_flag", bool(old_res.completed), old_flag, "an answer returned earlier changed when a later report was added")
                     s.answers.append((res, bool(res.completed)))
         elif name == "remove_entry":
